@@ -29,6 +29,39 @@ claim('C16', 'proof', K1 + '; ' + K2,
       'ULEB128._parse proved equal to the standard value/length for every byte string (loop invariant, variant, raises-iff-truncated); roundup proved; every fixed-width primitive factory of ELFStructs/DWARFStructs and the initial-length struct K2-checked in every configuration',
       'struct.Struct.unpack assumed to be the two\'s-complement reader; SLEB128/Int24/CString/initial-length adapter K1 contracts listed in evidence when present')
 
+claim('C01', 'proof', K1 + '; ' + K2,
+      'Ehdr/Shdr/Phdr layouts K2-checked over every (class, byte order, machine, OS ABI, file type); table addressing with e_shentsize/e_phentsize, extended-numbering escapes, header fetch, type->class dispatch (all 18 kinds), segment dispatch, enumeration generators proved against their specifications for all inputs',
+      'name map (_make_section_name_map / get_section_by_name) not yet under contract; constructors of Dynamic/Relocation/Attributes sections and the eight linked-section helpers are assumed contracts at the dispatch (checked under their own properties where listed); Sem of construct node kinds assumed')
+claim('C02', 'proof', K1 + '; ' + K2,
+      'chunked C-string reader proved to return the bytes up to the first NUL for any length; string table lookup; Section.__init__ compression header and Section.data (NOBITS / zlib with size check / raw) ; Segment.data; interpreter name; address_offsets soundness; section_in_segment proved equal to the binutils strict rule on every path; Elf_Chdr K2',
+      'zlib.decompressobj assumed (documented contract); address_offsets completeness (every containing segment is yielded) not proved; binutils rule scoped to the four condition groups of the statement')
+claim('C03', 'proof', K1 + '; ' + K2,
+      'Elf_Sym (both classes, bit structs), syminfo, hash headers K2; symbol addressing by sh_entsize, names through the linked string table, index section, syminfo; SysV and GNU hash functions proved equal to the standard 32-bit functions for every name; GNU symbol-count recovery proved (walks the highest bucket chain to its end bit), SysV count; linked-section validators',
+      'hash-lookup completeness under linker well-formedness (get_symbol of both tables) and get_symbol_by_name map not under contract yet')
+claim('C08', 'proof', K1 + '; ' + K2 + '; ' + GR,
+      'Elf_Rel/Rela/Relr incl. MIPS64 layout and r_info lambdas K2 (lambdas proved by z3); relocation table addressing; RELR expansion proved by step refinement (anchor/bitmap/base advance); every supported (machine, type) recipe: width, addend source, and calc function proved equal to the psABI formula for all operands',
+      '_do_apply_relocation (read/compute/write-back loop) and find_relocations_for_section not yet under K1 contract; MIPS RELA in-place addend is a recorded known finding')
+claim('C09', 'proof', K1 + '; ' + K2,
+      'Elf_Dyn K2 incl. machine/OS specific tag tables; raw tag addressing, walk to DT_NULL (with termination variant), table pointer lookup (first entry bearing the tag) mapped through loadable segments, string tags through the dynamic string table, tag count; GNU/SysV symbol count',
+      '_get_stringtable assumed; DynamicSegment.num_symbols fallback path / get_symbol / constructors and section-vs-segment relational lemma not yet under contract')
+claim('C13', 'proof', K1 + '; ' + K2,
+      'aranges set parsing (alignment, tuple walk to the (0,0) terminator, appended entries), bisect lookup under disjointness, unit cache representation invariant with RI-preserving interference at yields, offset-exact and containing lookups; headers K2',
+      'NameLUT parsing not yet under contract; _parse_CU_at_offset assumed at call sites (header layout is K2); float ceil exact below 2^53; 32-bit DWARF sets')
+claim('C15', 'proof', K1 + '; ' + K2,
+      'version records K2; entry and auxiliary chains by displacement (recursive offset spec), names via linked string table, requirement names, definition index resolution, versym entries, linked-section validation',
+      'GNUVerNeedSection.get_version / has_indexes nested loops not yet under contract')
+claim('C20', 'proof', K1 + '; ' + K2 + '; ' + GR,
+      'prel31; index entry classification and byte-code unpacking (all models, unbounded word loop); byte-code disassembler: every 1- and 2-byte instruction enumerated exhaustively against the EHABI 9.3 table; attribute value kinds per tag (ARM, RISC-V) incl. number lists by loop invariant; subsection and sub-subsection walkers by displacement with interference at yields',
+      'ULEB operand of opcode 0xb2 and instruction sequences are bounded stand-ins (reported separately); _make_attributes walker and mnemonic text have no independent oracle')
+for _p, _t in (('C04', 'unit headers (v2-v5, every unit type), abbreviation declaration incl. implicit_const, the full form table per (format, address size, version)'),
+               ('C05', 'line program header (v2-v5 incl. entry formats), file entries, form table'),
+               ('C06', 'CIE (v1/3/4) and FDE headers'),
+               ('C07', 'v5 list unit headers, every DW_LLE/DW_RLE entry layout, counted location description, locview pair'),
+               ('C11', 'debuglink (padding lambda proved), debugsup, debugaltlink structs; Section.data/Section.__init__ (gABI compression) K1')):
+    claim(_p, 'proof', K2 + ('; ' + K1 if _p == 'C11' else ''),
+          'structure obligations only so far: ' + _t + ' compared with the DWARF standard layouts over the complete (byte order, format, address size, version) space incl. struct cache behaviour; native differential replay',
+          'the walkers/state machines of this property are NOT yet under K1 contract (listed in DESIGN section 11); Sem of construct node kinds assumed')
+
 NOT_YET = 'not yet built in this round (DESIGN.md section 9 gives the order of work)'
 NA = {
     'C18': 'oracle is the text output of GNU readelf, a third-party binary; no contract over the real code expresses it (DESIGN.md section 5)',
